@@ -160,6 +160,11 @@ def _yaml_variables(variables):
         var_dict[v.name] = {"domain": v.domain.name}
         if v.initial_value is not None:
             var_dict[v.name]["initial_value"] = v.initial_value
+        cost_func = getattr(v, "_cost_func", None)
+        if isinstance(cost_func, ExpressionFunction):
+            var_dict[v.name]["cost_function"] = cost_func.expression
+            if isinstance(v, VariableNoisyCostFunc):
+                var_dict[v.name]["noise_level"] = v.noise_level
 
     return yaml.dump({"variables": var_dict}, default_flow_style=False)
 
